@@ -106,6 +106,14 @@ func concFlight(args []string, out *bufio.Writer) {
 				wg.Add(1)
 				bulk := r.chance(0.4)
 				k := r.intn(nkeys)
+				// one caller in eight arrives with an already-cancelled context: loaders get a context.WithoutCancel, so
+				// nothing may change (in particular no in-flight record may be orphaned)
+				ctx := context.Background()
+				if r.chance(0.12) {
+					cctx, cancel := context.WithCancel(ctx)
+					cancel()
+					ctx = cctx
+				}
 				go func(w int) {
 					defer wg.Done()
 					start := stamp.Add(1)
@@ -120,7 +128,7 @@ func concFlight(args []string, out *bufio.Writer) {
 							for j := range keys {
 								keys[j] = j
 							}
-							m, err := c.BulkGet(context.Background(), keys, ld)
+							m, err := c.BulkGet(ctx, keys, ld)
 							ks := make([]int, 0, len(m))
 							for kk := range m {
 								ks = append(ks, kk)
@@ -132,7 +140,7 @@ func concFlight(args []string, out *bufio.Writer) {
 							}
 							return s + " " + errTok2(err)
 						}
-						v, err := c.Get(context.Background(), k, ld)
+						v, err := c.Get(ctx, k, ld)
 						return fmt.Sprintf("get,%d=%d %s", k, v, errTok2(err))
 					}()
 					end := stamp.Add(1)
